@@ -99,6 +99,10 @@ class Event:
             return "return %s" % (vstr(self.a) if self.a is not None else "")
         if self.kind == "branch":
             return "branch %s in %s" % (self.a, sorted(self.b))
+        if self.kind in ("enter", "leave"):
+            return "%s helper %s" % (self.kind, self.a)
+        if self.kind == "iret":
+            return "helper returns %s" % (vstr(self.a) if self.a is not None else "")
         return self.kind
 
 
@@ -140,7 +144,7 @@ class Path:
 
 
 class State:
-    __slots__ = ("env", "epoch", "cons", "events", "visits", "blocks", "atoms", "nodeval", "fresh", "det", "lver", "fver")
+    __slots__ = ("env", "epoch", "cons", "events", "visits", "blocks", "atoms", "nodeval", "fresh", "det", "lver", "fver", "frames", "nact")
 
     def copy(self):
         s = State()
@@ -156,7 +160,20 @@ class State:
         s.det = False
         s.lver = dict(self.lver)
         s.fver = dict(self.fver)
+        s.frames = [fr.clone() for fr in self.frames]
+        s.nact = self.nact
         return s
+
+
+class Frame:
+    """Activation of an unknown static helper that is evaluated as part of its caller."""
+    __slots__ = ("func", "prefix", "subst", "cont", "retval", "act", "saved_nodeval")
+
+    def clone(self):
+        f = Frame()
+        f.func, f.prefix, f.subst, f.cont, f.retval, f.act = self.func, self.prefix, self.subst, self.cont, self.retval, self.act
+        f.saved_nodeval = self.saved_nodeval
+        return f
 
 
 class APE:
@@ -175,6 +192,30 @@ class APE:
                 for d in n["decls"]:
                     if not d.get("static"):
                         self.localnames.add(d["name"])
+
+    # ---- activations of unknown helpers ----------------------------------------------------------
+    def cur(self, st):
+        return st.frames[-1].func if st.frames else self.f
+
+    def _name(self, st, name):
+        """Environment key of a local / parameter name in the current activation."""
+        if st.frames:
+            fr = st.frames[-1]
+            if name in fr.subst:
+                return fr.subst[name]
+            return fr.prefix + name
+        return name
+
+    def _inlinable(self, st, n):
+        callee = n.get("callee")
+        if not callee or callee in self.opaque_calls or len(st.frames) >= 3:
+            return None
+        g = self.prog.helper(callee, self.unit) if hasattr(self.prog, "helper") else None
+        if g is None or g.body is None:
+            return None
+        if g is self.f or any(fr.func is g for fr in st.frames):
+            return None
+        return g
 
     # ---- symbolic values ------------------------------------------------
     def lkey(self, n):
@@ -206,6 +247,11 @@ class APE:
             if k == "DeclRefExpr" and n.get("dk") in ("local", "param", "func", "global", "slocal"):
                 if n.get("dk") in ("func",):
                     return ("s", "&" + n["name"])
+                if st.frames and n.get("dk") == "param" and n["name"] in st.frames[-1].subst and not self._is_var_key(key) and not key.startswith("&"):
+                    # a helper's parameter bound to a memory path of the caller: its value is what that path holds
+                    v_ = ("s", "%s@%d" % (key, st.epoch + st.fver.get(_lastfield(key), 0)))
+                    st.env[key] = v_
+                    return v_
                 return ("s", key)
             m = _LOCALSTRUCT.match(key)
             if m:
@@ -236,6 +282,18 @@ class APE:
             op = n["op"]
             if op == ",":
                 return self.val(st, n["kids"][1])
+            if op in ("&&", "||"):
+                # value of a short-circuit operator materialised at a join: the CFG evaluated the left operand in its own
+                # block; _step recorded the operator's value when the left operand decided it, otherwise it is the
+                # truth of the right operand
+                r = strip(n["kids"][1])
+                if r["k"] == "BinaryOperator" and (r.get("op") in OPSETS or r.get("op") in ("&&", "||")) or \
+                        (r["k"] == "UnaryOperator" and r.get("op") == "!"):
+                    return self.val(st, r)
+                b = self.val(st, r)
+                if b[0] == "c":
+                    return ("c", 1 if b[1] else 0)
+                return ("s", "(%s!=#0)" % vstr(b))
             a = self.val(st, n["kids"][0])
             b = self.val(st, n["kids"][1])
             if a[0] == "c" and b[0] == "c" and op in ("/", "%", "&", "|", "^", "<<", ">>") and a[1] >= 0 and b[1] >= 0:
@@ -284,12 +342,25 @@ class APE:
         n = strip(n)
         k = n["k"]
         if k == "DeclRefExpr":
+            if st.frames and n.get("dk") in ("local", "param", "slocal"):
+                return self._name(st, n["name"])
             return n["name"]
         if k == "MemberExpr":
             b = strip(n["kids"][0])
-            return self._valkey(st, b) + ("->" if n.get("arrow") else ".") + n["field"]
+            bk = self._valkey(st, b)
+            if n.get("arrow") and b["k"] == "DeclRefExpr" and b.get("dk") in ("local", "param") and self._is_var_key(bk):
+                # a local pointer that holds the address of a place (`opt = &it->m->opt`): name the place itself
+                hv = st.env.get(bk)
+                if hv is not None and hv[0] == "s" and hv[1].startswith("&") and "(" not in hv[1] and "@" not in hv[1]:
+                    bk = hv[1]
+            if n.get("arrow") and bk.startswith("&"):
+                return bk[1:] + "." + n["field"]       # (&x)->f is x.f
+            return bk + ("->" if n.get("arrow") else ".") + n["field"]
         if k == "UnaryOperator" and n.get("op") == "*":
-            return "*" + self._valkey(st, n["kids"][0])
+            bk = self._valkey(st, n["kids"][0])
+            if bk.startswith("&") and st.frames:
+                return bk[1:]
+            return "*" + bk
         if k == "UnaryOperator" and n.get("op") == "&":
             return "&" + self._valkey(st, n["kids"][0])
         if k == "ArraySubscriptExpr":
@@ -417,7 +488,7 @@ class APE:
         argv = [self.val(st, a) for a in args]
         callee = n.get("callee")
         name = callee or ("(*%s)" % self._valkey(st, n["kids"][0]))
-        widx, other = self.cg.written_args(self.unit, n, self.f)
+        widx, other = self.cg.written_args(self.unit, n, self.cur(st))
         pure = not widx and not other
         nondet = callee in self.opaque_calls or (callee in MR.EXTERNAL_NONDET and
                                                    self.cg.resolve(self.unit, callee) is None and callee != "__errno_location")
@@ -461,7 +532,7 @@ class APE:
                         continue
                 only_locals = False
             if not only_locals:
-                wf = self.cg.call_wfields(self.unit, n, self.f)
+                wf = self.cg.call_wfields(self.unit, n, self.cur(st))
                 if wf is None:
                     # library / user code: writes only through the pointers it is handed (one level)
                     st.epoch += 1
@@ -511,10 +582,18 @@ class APE:
         st.nodeval[strip(n)["id"]] = rv
         return rv
 
-    def _exec_root(self, st, root, B):
-        for n in eval_nodes(root):
+    def _exec_root(self, st, root, B, start=0):
+        """Execute the effect nodes of one CFG root element from position `start`.  Returns None when the root is done,
+        or (index, helper Func, call node, argument values) when an unknown helper has to be entered at that position."""
+        nodes = eval_nodes(root)
+        for idx in range(start, len(nodes)):
+            n = nodes[idx]
             k = n["k"]
             if k == "CallExpr":
+                g = self._inlinable(st, n)
+                if g is not None:
+                    argv = [self.val(st, a) for a in n["kids"][1:]]
+                    return (idx, g, n, argv)
                 self._call(st, n, B)
             elif k in ("BinaryOperator", "CompoundAssignOperator") and n.get("op") in MR.STORE_OPS:
                 lhs, rhs = n["kids"]
@@ -534,6 +613,7 @@ class APE:
                     elif r[0] == "c" and n["op"] == "+=":
                         v = add_const(old, r[1])
                 self._store(st, lhs, v, n, B)
+                st.nodeval[n["id"]] = v      # the value of an assignment expression is the value stored
             elif k == "UnaryOperator" and n.get("op") in ("++", "--"):
                 old = self.val(st, n["kids"][0])
                 if old[0] == "c":
@@ -546,26 +626,85 @@ class APE:
                 self._store(st, n["kids"][0], v, n, B)
             elif k == "DeclStmt":
                 for d in n["decls"]:
+                    key = self._name(st, d["name"])
                     if d.get("init") is not None:
                         ini = strip(d["init"])
                         if ini["k"] == "InitListExpr":
                             continue
                         v = self.val(st, d["init"])
-                        key = d["name"]
                         for kk in [kk for kk in st.env if kk.startswith(key + "->") or kk.startswith("*" + key)
                                    or kk.startswith(key + ".") or kk.startswith(key + "[")]:
                             del st.env[kk]
                         st.env[key] = v
                         st.events.append(Event("store", n, B.id, key, v))
                     else:
-                        st.env.pop(d["name"], None)
+                        st.env.pop(key, None)
             elif k == "ReturnStmt":
                 ks = kids(n)
                 v = self.val(st, ks[0]) if ks else None
-                st.events.append(Event("ret", n, B.id, v))
+                if st.frames:
+                    st.frames[-1].retval = v
+                    st.events.append(Event("iret", n, B.id, v))
+                else:
+                    st.events.append(Event("ret", n, B.id, v))
             elif k in ("ConditionalOperator",):
                 # the value was chosen in an earlier block; keep it opaque but stable
                 pass
+        return None
+
+    def _enter(self, st, g, call, argv, cont):
+        """Start evaluating helper g as part of the current path."""
+        fr = Frame()
+        st.nact += 1
+        fr.func, fr.act, fr.retval, fr.cont = g, st.nact, None, cont
+        fr.prefix = "%s__%d__" % (g.name, st.nact)
+        fr.saved_nodeval = st.nodeval
+        fr.subst = {}
+        stored = getattr(g, "_stored_params", None)
+        if stored is None:
+            stored = set()
+            from .facts import walk as _walk
+            for x in _walk(g.body):
+                if MR.is_store(x):
+                    l = strip(x["kids"][0])
+                    if l is not None and l["k"] == "DeclRefExpr" and l.get("dk") == "param":
+                        stored.add(l["name"])
+                if x["k"] == "UnaryOperator" and x.get("op") == "&":
+                    l = strip(x["kids"][0])
+                    if l is not None and l["k"] == "DeclRefExpr" and l.get("dk") == "param":
+                        stored.add(l["name"])
+            g._stored_params = stored
+            from .facts import walk as _walk2
+            names = set(p["name"] for p in g.params)
+            for x in _walk2(g.body):
+                if x["k"] == "DeclStmt":
+                    for d in x["decls"]:
+                        names.add(d["name"])
+            g._local_names = names
+        args = call["kids"][1:]
+        binds = []
+        for i, prm in enumerate(g.params):
+            pn = prm["name"]
+            if i >= len(args):
+                continue
+            a = strip(args[i])
+            path = None
+            if pn not in stored and a is not None and (a["k"] in ("DeclRefExpr", "MemberExpr", "ArraySubscriptExpr") or
+                                                       (a["k"] == "UnaryOperator" and a.get("op") in ("&", "*"))) \
+                    and not (a["k"] == "DeclRefExpr" and a.get("dk") not in ("local", "param", "slocal")):
+                # the argument is a place of the caller: the helper's parameter stands for it (evaluated in the caller's frame)
+                path = self._valkey(st, a)
+            binds.append((pn, path, argv[i]))
+        st.frames.append(fr)
+        st.nodeval = {}
+        for pn, path, av in binds:
+            if path is not None:
+                fr.subst[pn] = path
+            else:
+                st.env[fr.prefix + pn] = av
+        for nm in g._local_names:
+            self.localnames.add(fr.prefix + nm)
+        st.events.append(Event("enter", call, None, g.name, argv))
 
     # ---- path enumeration ------------------------------------------------------
     def run(self, start=None, stop=()):
@@ -583,12 +722,14 @@ class APE:
         st.det = False
         st.lver = {}
         st.fver = {}
+        st.frames = []
+        st.nact = 0
         self.paths = []
         self.stop = set(stop)
-        stack = [(start if start is not None else f.entry, st)]
+        stack = [(start if start is not None else f.entry, st, 0, 0)]
         while stack:
-            bid, st = stack.pop()
-            self._step(bid, st, stack)
+            item = stack.pop()
+            self._step(item, stack)
             if len(self.paths) + len(stack) > self.max_paths:
                 raise BrokenAnalysis("path budget exceeded in %s" % f.name)
         return self.paths
@@ -598,24 +739,42 @@ class APE:
         p.events, p.cons, p.end, p.blocks, p.atoms = st.events, st.cons, end, st.blocks, st.atoms
         self.paths.append(p)
 
-    def _step(self, bid, st, stack):
-        f = self.f
+    def _step(self, item, stack):
+        bid, st, ri, ni = item
+        f = self.cur(st)
         B = f.blocks[bid]
-        v = st.visits.get(bid, 0)
-        if v > self.bound and not (getattr(st, "det", False) and v < 4096):
-            self._finish(st, "cut")
-            return
-        st.visits[bid] = v + 1
-        st.blocks.append(bid)
-        if bid in self.stop:
-            self._finish(st, "stop")
-            return
-        for r in B.roots:
-            self._exec_root(st, r, B)
+        act = st.frames[-1].act if st.frames else 0
+        if ri == 0 and ni == 0:
+            vk = (act, bid)
+            v = st.visits.get(vk, 0)
+            if v > self.bound and not (getattr(st, "det", False) and v < 4096):
+                self._finish(st, "cut")
+                return
+            st.visits[vk] = v + 1
+            st.blocks.append(bid)
+            if not st.frames and bid in self.stop:
+                self._finish(st, "stop")
+                return
+        for r_i in range(ri, len(B.roots)):
+            sig = self._exec_root(st, B.roots[r_i], B, ni if r_i == ri else 0)
+            if sig is not None:
+                idx, g, call, argv = sig
+                self._enter(st, g, call, argv, (bid, r_i, idx + 1, call["id"]))
+                stack.append((g.entry, st, 0, 0))
+                return
         if B.noreturn:
             self._finish(st, "noreturn")
             return
         if bid == f.exit:
+            if st.frames:
+                fr = st.frames.pop()
+                rv = fr.retval if fr.retval is not None else ("s", "%s()#void" % fr.func.name)
+                st.nodeval = dict(fr.saved_nodeval)
+                cbid, cri, cni, cid = fr.cont
+                st.nodeval[cid] = rv
+                st.events.append(Event("leave", fr.func.body, None, fr.func.name, rv))
+                stack.append((cbid, st, cri, cni))
+                return
             self._finish(st, "exit")
             return
         succs = B.succs
@@ -639,7 +798,7 @@ class APE:
                     self._finish(st, "cut")
                 else:
                     st.det = True   # deterministic continuation: constant-trip loops unroll fully
-                    stack.append((tgt, st))
+                    stack.append((tgt, st, 0, 0))
                 return
             atom, acc, nodes = lit
             cur = st.cons.get(atom, ALL)
@@ -663,21 +822,21 @@ class APE:
                 s2.det = False
                 s2.atoms.setdefault(atom, nodes)
                 s2.events.append(Event("branch", B.cond, B.id, atom, frozenset(new)))
-                stack.append((tgt, s2))
+                stack.append((tgt, s2, 0, 0))
             return
-        nxt = [s for s in succs if s is not None]
+        nxt = [s_ for s_ in succs if s_ is not None]
         if not nxt:
-            self._finish(st, "exit" if bid == f.exit else "cut")
+            self._finish(st, "exit" if (bid == f.exit and not st.frames) else "cut")
             return
         if len(nxt) == 1:
-            stack.append((nxt[0], st))
+            stack.append((nxt[0], st, 0, 0))
             return
         # unknown multi-way terminator (goto/indirect): explore all
-        for s in nxt:
-            stack.append((s, st.copy()))
+        for s_ in nxt:
+            stack.append((s_, st.copy(), 0, 0))
 
     def _switch(self, B, st, stack):
-        f = self.f
+        f = self.cur(st)
         v = self.val(st, B.cond) if B.cond is not None else ("s", "?")
         key = (vstr(v), "switch")
         default = None
@@ -705,14 +864,14 @@ class APE:
             s2 = st.copy()
             s2.cons[key] = frozenset((tag,))
             s2.events.append(Event("branch", B.cond, B.id, key, frozenset((tag,))))
-            stack.append((s, s2))
+            stack.append((s, s2, 0, 0))
         if default is not None:
             if v[0] == "c" and any(cv == v[1] for _, cv, _ in cases):
                 return
             s2 = st.copy()
             s2.cons[key] = frozenset(("default",))
             s2.events.append(Event("branch", B.cond, B.id, key, frozenset(("default",))))
-            stack.append((default, s2))
+            stack.append((default, s2, 0, 0))
 
 
 def run(prog, cg, func, **kw):
